@@ -77,10 +77,24 @@ def extract(repo):
     bnf = rd("doc/iso-10303-21--2002.bnf")
 
     # ---- ReadInteger / ReadNumber: extraction, test of fail(), optional report in the failing branch
-    def reports(fn_header, var, what):
+    null_flags = {}
+
+    def reports(fn_header, var, what, sentinel):
         body = _strip(_body(rf, fn_header, what))
         if not re.search(r"in\s*>>\s*ws\s*;", body) or not re.search(r"in\s*>>\s*" + var + r"\s*;", body):
             raise ValueError(f"{what}: extraction statements changed")
+        # optional first branch: the in-band null sentinel is reported instead of stored (fixes/C09-9)
+        m = re.search(r"if\s*\(\s*!\s*in\.fail\(\)\s*(&&\s*" + var + r"\s*==\s*" + sentinel + r"\s*)?\)\s*\{", body)
+        if not m:
+            raise ValueError(f"{what}: test of the extraction changed")
+        null_rep = False
+        if m.group(1):
+            m2 = re.match(r"[^{}]*err->GreaterSeverity\(\s*SEVERITY_WARNING\s*\)\s*;[^{}]*\}\s*else\s+", body[m.end():], re.S)
+            if not m2 or "valAssigned" in m2.group(0) or re.search(r"\bval\s*=", m2.group(0)):
+                raise ValueError(f"{what}: unknown code in the null-sentinel branch")
+            null_rep = True
+            body = body[:m.start()] + body[m.end() + m2.end():]
+        null_flags[what] = null_rep
         m = re.search(r"if\s*\(\s*!\s*in\.fail\(\)\s*\)\s*\{\s*valAssigned\s*=\s*1;\s*val\s*=\s*" + var + r";\s*\}(.*?)CheckRemainingInput\(\s*in,\s*err,\s*\"\w+\",\s*tokenList\s*\)", body, re.S)
         if not m:
             raise ValueError(f"{what}: assignment / CheckRemainingInput shape changed")
@@ -93,8 +107,8 @@ def extract(repo):
             return True
         raise ValueError(f"{what}: unknown code after the assignment: {tail.strip()[:120]!r}")
 
-    int_rep = reports(r"int\s+ReadInteger\(\s*SDAI_Integer\s*&\s*val,\s*istream\s*&\s*in,[^)]*\)\s*\{", "i", "ReadInteger")
-    num_rep = reports(r"int\s+ReadNumber\(\s*SDAI_Real\s*&\s*val,\s*istream\s*&\s*in,[^)]*\)\s*\{", "d", "ReadNumber")
+    int_rep = reports(r"int\s+ReadInteger\(\s*SDAI_Integer\s*&\s*val,\s*istream\s*&\s*in,[^)]*\)\s*\{", "i", "ReadInteger", "S_INT_NULL")
+    num_rep = reports(r"int\s+ReadNumber\(\s*SDAI_Real\s*&\s*val,\s*istream\s*&\s*in,[^)]*\)\s*\{", "d", "ReadNumber", "S_NUMBER_NULL")
 
     # ---- ReadReal
     rr = _strip(_body(rf, r"int\s+ReadReal\(\s*SDAI_Real\s*&\s*val,\s*istream\s*&\s*in,[^)]*\)\s*\{", "ReadReal"))
@@ -105,6 +119,15 @@ def extract(repo):
         real_buf = 0                         # growing buffer: no overflow
     else:
         raise ValueError("ReadReal: buffer declaration not found")
+    m = re.search(r"if\s*\(\s*!\s*in2\.fail\(\)\s*&&\s*d\s*==\s*S_REAL_NULL\s*\)\s*\{", rr)
+    if m:
+        m2 = re.match(r"\s*val\s*=\s*S_REAL_NULL\s*;[^{}]*err->GreaterSeverity\(\s*SEVERITY_WARNING\s*\)\s*;[^{}]*\}\s*else\s+", rr[m.end():], re.S)
+        if not m2 or "valAssigned" in m2.group(0):
+            raise ValueError("ReadReal: unknown code in the null-sentinel branch")
+        rr = rr[:m.start()] + rr[m.end() + m2.end():]
+        null_flags["ReadReal"] = True
+    else:
+        null_flags["ReadReal"] = False
     m = re.search(r"if\s*\(\s*!\s*in2\.fail\(\)\s*\)\s*\{\s*valAssigned\s*=\s*1;\s*val\s*=\s*d;\s*err->GreaterSeverity\(\s*e\.severity\(\)\s*\);\s*err->AppendToDetailMsg\(\s*e\.DetailMsg\(\)\s*\);\s*\}\s*else\s*\{\s*val\s*=\s*S_REAL_NULL;(.*?)\}\s*CheckRemainingInput\(\s*in,\s*err,\s*\"Real\",\s*tokenList\s*\)", rr, re.S)
     if not m:
         raise ValueError("ReadReal: conversion / assignment shape changed")
@@ -315,7 +338,9 @@ def lexCfg : StepModel.P21.LexCfg :=
   {{ intReportsFail := {_b(int_rep)}, realReportsFail := {_b(real_rep)}, numberReportsFail := {_b(num_rep)},
     logicalRejectsUnset := {_b(log_rej)}, binaryRejectsEmpty := {_b(bin_rej)}, dollarKeepsError := {_b(dollar_keeps)},
     asStrUsesWriteReal := {_b(asstr_wr)}, criSkipsComments := {_b(cri_comments)}, realBuf := {real_buf}, realPrecision := {prec},
-    nulIsDelim := {_b(nul_is_delim)}, realFailUnlessBlank := {_b(real_unless_blank)}, refReportsNonRef := {_b(ref_reports)} }}
+    nulIsDelim := {_b(nul_is_delim)}, realFailUnlessBlank := {_b(real_unless_blank)}, refReportsNonRef := {_b(ref_reports)},
+    intNullReported := {_b(null_flags["ReadInteger"])}, realNullReported := {_b(null_flags["ReadReal"])},
+    numberNullReported := {_b(null_flags["ReadNumber"])} }}
 
 /-- `SDAI_LOGICAL::element_at(0..3)` and `SDAI_BOOLEAN::element_at(0..1)` -/
 def logicalTable : List (List Nat) := [{", ".join(lst(x) for x in log_tbl)}]
